@@ -42,6 +42,37 @@ IDS = {"same": "vf-run", "prefix": "vf-run-ab12", "other": "zz-run",
        "missing": None}
 
 
+def remote_url(fmt, b):
+    if fmt == "s3":
+        return f"http://vf-s3.example/vf-bucket/f{b}.rtdc"
+    if fmt == "dcor":
+        return ("https://dcor.vf.example/api/3/action/dcserv?id="
+                f"00000000-0000-4000-8000-00000000000{b}")
+    return f"http://vf.example/f{b}.rtdc"
+
+
+def dcor_answers(path, extra_basins=()):
+    """What a DCOR server (dcserv API version 2) answers for the resource
+    made from `path`: metadata, an HTTP basin with the data, the basin
+    definitions stored in the file itself, logs and tables."""
+    import dclab
+    with dclab.new_dataset(path) as ds:
+        meta = {}
+        for sec in ds.config:
+            if sec in ("filtering", "calculation", "user"):
+                continue
+            meta[sec] = {k: (v.item() if hasattr(v, "item") else v)
+                         for k, v in dict(ds.config[sec]).items()}
+        own = [dict(bd) for bd in ds.basins_get_dicts()]
+    b = int(path.stem[1:])
+    basins = list(extra_basins) + [
+        {"type": "remote", "format": "http", "name": "data",
+         "description": "", "urls": [remote_url("http", b)],
+         "key": f"dcor-data-{b}"}] + own
+    return {"valid": True, "metadata": meta, "basins": basins, "logs": {},
+            "tables": {}, "size": N, "feature_list": []}
+
+
 def write_graph(d, nfiles, edges, ids=None, mapped=(), loc="abs",
                 remote_host=None, features_restrict=None,
                 features_empty=None):
@@ -68,8 +99,11 @@ def write_graph(d, nfiles, edges, ids=None, mapped=(), loc="abs",
                 if (a, b) in mapped:
                     kw["basin_map"] = np.array(MAPPED, dtype=np.uint64)
                 if remote_host is not None and (a, b) in remote_host:
-                    hw.store_basin(f"b{a}{b}", "remote", "http",
-                                   [f"http://vf.example/f{b}.rtdc"],
+                    # a set: plain HTTP; a dict: (a, b) -> http | s3 | dcor
+                    rfmt = remote_host[(a, b)] if isinstance(
+                        remote_host, dict) else "http"
+                    hw.store_basin(f"b{a}{b}", "remote", rfmt,
+                                   [remote_url(rfmt, b)],
                                    verify=False, **kw)
                     continue
                 dangling = str(d / "does-not-exist" / paths[b].name)
@@ -527,6 +561,86 @@ def _remote_case(args):
                             f"{FEATS[1] in ds}, values "
                             f"{np.asarray(ds[FEATS[1]][:]) if FEATS[1] in ds else None}"
                             f" expected {data_for(1)}", tags))
+        elif variant in ("s3-chain", "dcor-chain", "s3-unreachable",
+                         "dcor-unreachable"):
+            # f0 -(remote: s3 / dcor)-> f1 -(file)-> f2, f0 opened
+            # locally: f1 is reachable (unless the store does not have
+            # it), f2 never (a local basin below a remote one)
+            kind = variant.split("-")[0]
+            edges = [(0, 1), (1, 2)]
+            paths = write_graph(d, 3, edges, remote_host={(0, 1): kind})
+            reach = not variant.endswith("unreachable")
+            if reach:
+                for b_, p_ in enumerate(paths):
+                    for f_ in ("http", "s3"):
+                        host.add(remote_url(f_, b_), p_.read_bytes())
+                    host.add_dcor(remote_url("dcor", b_), dcor_answers(p_))
+            else:
+                host.hosts.update({"vf-s3.example", "dcor.vf.example"})
+            opened = []
+            orig = h5py.File.__init__
+
+            def spy(self, name, *a, **kw):
+                if isinstance(name, (str, bytes, os.PathLike)):
+                    opened.append(str(name))
+                return orig(self, name, *a, **kw)
+            ref = reference(3, edges, ["same"] * 3, (),
+                            usable=lambda a, b: reach and (a, b) == (0, 1))
+            with fakehttp.installed(host, s3=True):
+                h5py.File.__init__ = spy
+                try:
+                    out += check_open(paths[0], 0, 3, ref, case, tags)
+                finally:
+                    h5py.File.__init__ = orig
+            local = [o for o in opened if o.startswith(str(d))
+                     and not o.endswith(paths[0].name)]
+            if local:
+                out.append(violation(
+                    CORE, "local-basin-opened-from-network-format", case,
+                    f"h5py.File opened local paths {local} below a "
+                    f"{kind} basin", tags))
+        elif variant in ("s3-open", "dcor-open"):
+            # f0 opened through RTDC_S3 / RTDC_DCOR: its file basin (f1) is
+            # not permitted, its remote basin (f2) is, and f2's file basin
+            # (f1 again) is not
+            kind = variant.split("-")[0]
+            edges = [(0, 1), (0, 2), (2, 1)]
+            paths = write_graph(d, 3, edges,
+                                remote_host={(0, 2): "http" if kind == "dcor"
+                                             else "s3"})
+            for b_, p_ in enumerate(paths):
+                for f_ in ("http", "s3"):
+                    host.add(remote_url(f_, b_), p_.read_bytes())
+                host.add_dcor(remote_url("dcor", b_), dcor_answers(p_))
+            opened = []
+            orig = h5py.File.__init__
+
+            def spy(self, name, *a, **kw):
+                if isinstance(name, (str, bytes, os.PathLike)):
+                    opened.append(str(name))
+                return orig(self, name, *a, **kw)
+            ref = reference(3, edges, ["same"] * 3, (),
+                            usable=lambda a, b: (a, b) == (0, 2))
+            from dclab.rtdc_dataset import fmt_dcor, fmt_s3
+            if kind == "s3":
+                def opener(p):
+                    return fmt_s3.RTDC_S3(remote_url("s3", 0))
+            else:
+                def opener(p):
+                    return fmt_dcor.RTDC_DCOR(remote_url("dcor", 0))
+            with fakehttp.installed(host, s3=True):
+                h5py.File.__init__ = spy
+                try:
+                    out += check_open(paths[0], 0, 3, ref, case, tags,
+                                      opener=opener)
+                finally:
+                    h5py.File.__init__ = orig
+            local = [o for o in opened if o.startswith(str(d))]
+            if local:
+                out.append(violation(
+                    CORE, "local-basin-opened-from-network-format", case,
+                    f"h5py.File opened local paths {local} below an "
+                    f"RTDC_{kind.upper()} dataset", tags))
         elif variant == "remote-unreachable":
             edges = [(0, 1)]
             paths = write_graph(d, 2, edges, remote_host={(0, 1)})
@@ -595,6 +709,8 @@ def run(ctx):
                                      if sh not in BIG_SHAPES])
     res += par.pmap(_remote_case, [(v, scratch) for v in (
         "remote-chain", "http-open", "remote-unreachable",
+        "s3-chain", "dcor-chain", "s3-open", "dcor-open",
+        "s3-unreachable", "dcor-unreachable",
         "remote-unreachable-listed", "remote-unreachable-listed-chain",
         "internal-behind-file", "internal-http", "internal-behind-remote",
         "remote-type-local-path", "internal-type-local-path",
